@@ -323,10 +323,8 @@ pub fn check_run(run: &Run, fresh: bool) -> C15Result {
 // ------------------------------------------------------------------ generators
 
 struct Case {
-    seed: u64,
     run: Run,
     res: C15Result,
-    fresh: bool,
     sample: Value,
 }
 
@@ -413,7 +411,7 @@ fn gen_case(seed: u64, thorough: bool, fresh: bool) -> Case {
         "faults": res.faults,
         "trace_head": encode_steps(&run.steps).into_iter().take(16).collect::<Vec<_>>(),
     });
-    Case { seed, run, res, fresh, sample }
+    Case { run, res, sample }
 }
 
 fn run_key(okey: &str, run: &Run) -> String {
@@ -422,29 +420,106 @@ fn run_key(okey: &str, run: &Run) -> String {
     format!("{okey}:{:08x}", f.get() as u32)
 }
 
-fn minimise(c: &Case) -> Violation {
-    let okey = c.res.key.as_ref().unwrap().0.clone();
-    let ok2 = okey.clone();
-    let fresh = c.fresh && okey == "run_vs_fresh_process";
-    let fails = move |r: &Run| -> bool { fresh_thread(|| check_run(r, fresh)).key.map(|(k, _)| k == ok2).unwrap_or(false) };
-    let (min, tried) = shrink_run(
-        c.run.clone(),
-        &fails,
-        ShrinkOpts { drop_tasks: true, drop_players: true, narrow_scopes: true, max_candidates: if fresh { 120 } else { 400 } },
-    );
-    let fin = fresh_thread(|| check_run(&min, fresh));
-    let detail = fin.key.map(|x| x.1).unwrap_or_else(|| c.res.key.as_ref().unwrap().1.clone());
-    let mut rj = min.to_json();
+fn to_replay(run: &Run, fresh: bool) -> Value {
+    let mut rj = run.to_json();
     rj["kind"] = json!("c15_run");
     rj["fresh"] = json!(fresh);
-    rj["shrink_candidates"] = json!(tried);
-    Violation {
-        property: "C15".into(),
-        oracle: okey.clone(),
-        key: run_key(&okey, &min),
-        detail: format!("{} evaluators, {} steps, {} executors: {}", min.specs.len(), min.steps.len(), min.execs, detail),
-        seed: c.seed,
-        replay: rj,
+    rj
+}
+
+/// One simulated run as a case of batch `inproc` / `fresh`, or one native concurrent run.
+pub fn case(batch: &str, tier: &str, i: u64) -> CaseOut {
+    let vs = verif_seed();
+    let seed = run_seed(vs, "C15", batch, i);
+    let mut out = CaseOut { index: i, seed, evals: 1, ..Default::default() };
+    if batch == "native" {
+        *out.probes.entry("native_concurrent_runs".into()).or_insert(0) += 1;
+        if let Some(d) = native_concurrent(seed) {
+            out.violation = Some((
+                "native_concurrent".into(),
+                format!("threads draining their own evaluators concurrently diverged from the alone run: {d} (OS schedule: may not replay)"),
+                json!({"kind":"c15_native","seed": seed.to_string()}),
+            ));
+        }
+        return out;
+    }
+    let fresh = batch == "fresh";
+    let c = gen_case(seed, tier != "quick", fresh);
+    out.steps = c.res.next_calls;
+    out.log = c.res.log;
+    let nf: u64 = c.res.faults.values().sum();
+    out.faults = c.res.faults.clone();
+    out.probes = c.res.probes.clone();
+    let mut probe = |k: &str, n: u64| *out.probes.entry(k.to_string()).or_insert(0) += n;
+    probe("global_states_seen_sum_over_runs", c.res.states as u64);
+    if c.res.max_live >= 3 {
+        probe("runs_with_3plus_live_evaluators", 1);
+    }
+    if c.run.execs >= 2 {
+        probe("runs_with_2plus_executors", 1);
+    }
+    if c.res.max_live >= 2 || nf > 0 {
+        let mut f = Fold::new();
+        for s in &c.run.scens {
+            f.add_str(&s.short());
+        }
+        for s in &c.run.specs {
+            f.add(s.scen as u64);
+            f.add(pos_index(s.from()) as u64);
+            f.add(pos_index(s.to()) as u64);
+        }
+        f.add(c.res.trace_hash);
+        out.distinct.push(f.get());
+    }
+    if c.res.max_live >= 3 {
+        out.sample = Some(c.sample.clone());
+    }
+    out.extra = json!({"trace": c.res.trace_hash.to_string()});
+    if let Some((okey, detail)) = &c.res.key {
+        let fr = fresh && okey == "run_vs_fresh_process";
+        out.violation = Some((okey.clone(), detail.clone(), to_replay(&c.run, fr)));
+    }
+    out
+}
+
+pub fn eval(v: &Value) -> Option<(String, String)> {
+    match v["kind"].as_str().unwrap_or("") {
+        "c15_native" => {
+            let seed: u64 = v["seed"].as_str()?.parse().ok()?;
+            for _ in 0..20 {
+                if let Some(d) = native_concurrent(seed) {
+                    return Some(("native_concurrent".into(), d));
+                }
+            }
+            None
+        }
+        _ => {
+            let run = Run::from_json(v).ok()?;
+            let fresh = v["fresh"].as_bool().unwrap_or(false);
+            check_run(&run, fresh).key
+        }
+    }
+}
+
+fn minimise_json(replay: &Value, _okey: &str, pred: &dyn Fn(&Value) -> bool) -> (Value, usize) {
+    if replay["kind"].as_str() != Some("c15_run") {
+        return (replay.clone(), 0);
+    }
+    let Ok(run) = Run::from_json(replay) else { return (replay.clone(), 0) };
+    let fresh = replay["fresh"].as_bool().unwrap_or(false);
+    let fails = move |r: &Run| -> bool { pred(&to_replay(r, fresh)) };
+    let (min, tried) = shrink_run(
+        run,
+        &fails,
+        ShrinkOpts { drop_tasks: true, drop_players: true, narrow_scopes: true, max_candidates: if fresh { 100 } else { 250 } },
+    );
+    (to_replay(&min, fresh), tried)
+}
+
+fn key_json(okey: &str, min: &Value) -> String {
+    match Run::from_json(min) {
+        Ok(run) => run_key(okey, &run),
+        Err(_) => format!("{okey}:{}", min["seed"].as_str().unwrap_or("")),
     }
 }
 
@@ -585,74 +660,53 @@ pub fn run(tier: &str) -> i32 {
         }
     }
 
-    // seeded runs: in-process batches and a fresh-process batch
-    let n_plain: usize = if quick { 1500 } else { 150_000 };
-    let n_fresh: usize = if quick { 250 } else { 12_000 };
-    let thorough = !quick;
+    // seeded runs in chunked child processes: in-process oracles, a fresh-process
+    // batch, and the native concurrent supplement
+    let n_plain: u64 = if quick { 1500 } else { 150_000 };
+    let n_fresh: u64 = if quick { 250 } else { 12_000 };
+    let n_native: u64 = if quick { 60 } else { 1500 };
     let mut traces: std::collections::BTreeSet<u64> = Default::default();
-    for (batch, n, fresh) in [("inproc", n_plain, false), ("fresh", n_fresh, true)] {
-        let cases = par_map(n, workers(), move |i| fresh_thread(|| gen_case(run_seed(vs, "C15", batch, i as u64), thorough, fresh)));
-        for c in cases {
-            ev.evaluations += 1;
-            ev.steps += c.res.next_calls;
-            logfold.add(c.res.log);
-            let nf: u64 = c.res.faults.values().sum();
-            ev.probe("global_states_seen_sum_over_runs", c.res.states as u64);
-            traces.insert(c.res.trace_hash);
-            ev.merge_counts(&c.res.faults, &c.res.probes);
-            if c.res.max_live >= 2 || nf > 0 {
-                let mut f = Fold::new();
-                for s in &c.run.scens {
-                    f.add_str(&s.short());
-                }
-                for s in &c.run.specs {
-                    f.add(s.scen as u64);
-                    f.add(pos_index(s.from()) as u64);
-                    f.add(pos_index(s.to()) as u64);
-                }
-                f.add(c.res.trace_hash);
-                ev.distinct.insert(f.get());
-            }
-            if c.res.max_live >= 3 {
-                ev.probe("runs_with_3plus_live_evaluators", 1);
-            }
-            if c.run.execs >= 2 {
-                ev.probe("runs_with_2plus_executors", 1);
-            }
-            if ev.samples.len() < 8 && c.res.max_live >= 3 {
-                ev.sample(c.sample.clone());
-            }
-            if c.res.key.is_some() {
-                if ev.violations.len() < 5 {
-                    ev.violations.push(minimise(&c));
-                } else {
-                    ev.probe("further_violations_not_minimised", 1);
-                }
-            }
-        }
-    }
-
-    ev.probe("distinct_schedule_traces", traces.len() as u64);
-
-    // native concurrent supplement
-    let n_native = if quick { 60 } else { 1500 };
-    let nat = par_map(n_native, 4, move |i| native_concurrent(run_seed(vs, "C15", "native", i as u64)));
-    for (i, r) in nat.into_iter().enumerate() {
-        ev.evaluations += 1;
-        ev.probe("native_concurrent_runs", 1);
-        if let Some(d) = r {
-            if !ev.violations.iter().any(|v| v.oracle == "native_concurrent") {
+    let chunk: u64 = if quick { 8 } else { 64 };
+    for (batch, n) in [("inproc", n_plain), ("fresh", n_fresh), ("native", n_native)] {
+        let chunks = run_batch("C15", batch, n, chunk, tier, false);
+        for (ci, ch) in chunks.iter().enumerate() {
+            let chunk_first = ci as u64 * chunk;
+            if let Some((i, how)) = &ch.died {
                 ev.violations.push(Violation {
                     property: "C15".into(),
-                    oracle: "native_concurrent".into(),
-                    key: format!("native_concurrent:{i}"),
-                    detail: format!("threads draining their own evaluators concurrently diverged from the alone run: {d} (OS schedule: may not replay)"),
-                    seed: run_seed(vs, "C15", "native", i as u64),
-                    replay: json!({"kind":"c15_native","seed": run_seed(vs, "C15", "native", i as u64).to_string()}),
+                    oracle: "process_died".into(),
+                    key: format!("process_died:history:{batch}:{chunk_first}..={i}"),
+                    detail: format!("the process running the evaluators ended with {how} at case {i} of batch '{batch}'"),
+                    seed: vs,
+                    replay: json!({"kind":"chunk","batch":batch,"first":chunk_first,"upto":i,"tier":tier,"expected_oracle":"process_died"}),
                 });
+            }
+            for c in &ch.cases {
+                ev.merge_case(c);
+                logfold.add(c.log);
+                if let Some(t) = c.extra["trace"].as_str().and_then(|t| t.parse::<u64>().ok()) {
+                    traces.insert(t);
+                }
+                if let Some(sm) = &c.sample {
+                    if ev.samples.len() < 8 {
+                        ev.sample(sm.clone());
+                    }
+                }
+                if c.violation.is_some() {
+                    if ev.violations.len() < 5 {
+                        let mut v = settle_violation("C15", batch, tier, false, chunk_first, c, &minimise_json, &key_json);
+                        if let Ok(run) = Run::from_json(&v.replay) {
+                            v.detail = format!("{} evaluators, {} steps, {} executors: {}", run.specs.len(), run.steps.len(), run.execs, v.detail);
+                        }
+                        ev.violations.push(v);
+                    } else {
+                        ev.probe("further_violations_not_minimised", 1);
+                    }
+                }
             }
         }
     }
+    ev.probe("distinct_schedule_traces", traces.len() as u64);
 
     // Miri tier: thorough always; quick only when the inventory is non-empty
     // quick: a few seeds always (safety net for shared state the source inventory
@@ -703,10 +757,10 @@ pub fn run(tier: &str) -> i32 {
 pub fn replay(v: &Value) -> Option<(String, String)> {
     let r = &v["replay"];
     match r["kind"].as_str().unwrap_or("") {
+        "chunk" => replay_chunk("C15", r),
         "c15_run" => {
             let run = Run::from_json(r).ok()?;
-            let fresh = r["fresh"].as_bool().unwrap_or(false);
-            check_run(&run, fresh).key.map(|(k, d)| (run_key(&k, &run), d))
+            eval_in_child("C15", r, false).map(|(k, d)| (run_key(&k, &run), d))
         }
         "c15_sendsync" => match sendsync_probe() {
             Ok((false, diag)) => {
@@ -715,15 +769,7 @@ pub fn replay(v: &Value) -> Option<(String, String)> {
             }
             _ => None,
         },
-        "c15_native" => {
-            let seed: u64 = r["seed"].as_str()?.parse().ok()?;
-            for _ in 0..20 {
-                if let Some(d) = native_concurrent(seed) {
-                    return Some((v["key"].as_str().unwrap_or("").to_string(), d));
-                }
-            }
-            None
-        }
+        "c15_native" => eval_in_child("C15", r, false).map(|(k, d)| (key_json(&k, r), d)),
         "c15_miri" => match miri_tier(verif_seed(), 64) {
             Ok((_, Some(t))) => Some((v["key"].as_str().unwrap_or("").to_string(), t.lines().rev().take(5).collect::<Vec<_>>().join(" | "))),
             _ => None,
